@@ -243,6 +243,7 @@ def run_check(d, prop, runs, out):
     env['PYTHONDONTWRITEBYTECODE'] = '1'
     if SCALE != 1.0:
         env['VERIF_SCALE'] = str(SCALE)
+        env['VERIF_FAST_REPORT'] = '1'
     t0 = time.time()
     cmd = [PY, os.path.join(HERE, 'check.py'), prop, '--tier', 'quick']
     if runs:
